@@ -166,3 +166,8 @@ func (h Hash64) Int(v int64) Hash64 {
 	}
 	return Hash64(x)
 }
+
+// Depth is the tier's depth factor (1 quick, 3 thorough): simulators scale
+// the upper bound of their history lengths by it. It is fixed for a whole
+// batch and recorded in the evidence, so a seed still determines its run.
+var Depth = 1
